@@ -37,7 +37,9 @@ CONFIG.update(
                 "all logs with distinct names per step (which every produced step has), the name table is duplicate-free, any "
                 "permutation of a step's exported entries denotes the same map, the tree serialisation is injective for injective leaf "
                 "encodings, names every node, and a structural clone serialises identically. Tied to /repo by running real "
-                "configurations and decoding the real JSON/CBOR/RON exports (K: model log and compressed form equal the decoded files; "
+                "configurations and decoding the real JSON/CBOR/RON exports (K: model log equals the real log, and the real compressed exports DECODED through their own name table equal the "
+                "model's decoded compress — key numbering and name-table order are representation, not content; name table duplicate-free "
+                "and keys in range are checked; "
                 "O: decoded exports equal the specified sequence of steps as maps)."),
     level_note=("proof, partial: the theorems are about the model. The serde back-ends (serde_json, ciborium, ron), erased_serde's trait "
                 "objects and HashMap ordering are exercised on the generated cases, not modelled: that every configuration serialises "
